@@ -321,7 +321,7 @@ func (f *Frame) enterLoop(li *loopInfo, cur *State) {
 		if err != nil {
 			continue
 		}
-		c.assert(implies(guard, g))
+		c.assertTagged(implies(guard, g), f.invTag(li, cl))
 	}
 	if li.rangeIdx != nil && li.rangeLen != nil {
 		x := li.phiVal[li.rangeIdx].T
@@ -376,7 +376,7 @@ func (f *Frame) backEdge(li *loopInfo, from *ssa.BasicBlock, cur *State) {
 			continue
 		}
 		e.addObl(&Obligation{Name: fmt.Sprintf("%s#inv[loop %d].preserve[%s]", f.prefix, li.ordinal, clauseLabel(cl)), Kind: "inv.preserve", Func: f.prefix,
-			Label: clauseLabel(cl), Text: cl.Text, Guard: guard, Goal: g, Pos: f.posOfBlock(h)})
+			Label: clauseLabel(cl), Text: cl.Text, Guard: guard, Goal: g, Pos: f.posOfBlock(h), SkipTags: f.skipTagsFor(cl, clauseLabel(cl))})
 	}
 	if li.rangeIdx != nil && li.rangeLen != nil {
 		x := back[li.rangeIdx].T
@@ -917,4 +917,34 @@ func valueParent(v ssa.Value) *ssa.Function {
 		return ins.Parent()
 	}
 	return v.Parent()
+}
+
+func (f *Frame) invTag(li *loopInfo, cl *Clause) string {
+	return fmt.Sprintf("inv:%s:%d:%s", f.prefix, li.ordinal, clauseLabel(cl))
+}
+
+// skipTagsFor: the loop invariants of this function a clause with `uses [...]` does not assume
+// (all loops; the clause's own label is always kept).
+func (f *Frame) skipTagsFor(cl *Clause, self string) map[string]bool {
+	if cl == nil || cl.Using == nil {
+		return nil
+	}
+	fc := f.contract
+	if fc == nil {
+		fc = f.enc.prog.contractFor(f.fn)
+	}
+	if fc == nil {
+		return nil
+	}
+	keep := map[string]bool{self: true}
+	for _, l := range cl.Using {
+		keep[l] = true
+	}
+	skip := map[string]bool{}
+	for _, inv := range fc.Invs {
+		if l := clauseLabel(inv); !keep[l] {
+			skip[fmt.Sprintf("inv:%s:%d:%s", f.prefix, inv.Loop, l)] = true
+		}
+	}
+	return skip
 }
